@@ -14,7 +14,7 @@ import random
 PROPERTY = "C18"
 LEVEL = "exploration"
 RULE = ("histories of up to 12 (quick) / 50 (thorough) earlier assemblies drawn from valid, failing, internally crashing and hostile "
-        "(mutated) programs, then each of several probes out of 20 (valid with warnings, failing with several errors, .repeat, multi-file, "
+        "(mutated) programs, then each of several probes out of 25 (valid with warnings, failing with several errors, .repeat, multi-file, "
         "include, make_*), compared with the same probe in a fresh process; PYTHONHASHSEED 0-3 (quick) / 0-31 (thorough); "
         "distinct = distinct (history signature, probe) pairs")
 ASSUMPTIONS = ["diagnostic text is not compared (it legitimately contains d<counter> names); severity, identifier and positions are",
@@ -34,6 +34,13 @@ PROBES = [
     ("include-ctx-a", [("p.mac", ".link 1000\nhostv == 5\n.include \"inc3.mac\"\n.word inc3v\ninc3v = 1\n")]),
     ("include-ctx-b", [("p.mac", ".link 40000\n.blkb 6\nhostv == 177\n.include \"inc3.mac\"\n.include \"inc3.mac\"\n")]),
     ("include-ctx-c", [("a.mac", "nop\n.include \"inc3.mac\"\n"), ("b.mac", "hostv:: .word 7\n.include \"inc3.mac\"\n")]),
+    # Macro-11 caret brackets: the same closing character at top level in one program and nested inside another bracket in another
+    ("caret-nested", [("p.mac", ".word ^/ 1 + ^? 2 ? /\n.word ^? 6 / 2 ?\n")]),
+    ("caret-top", [("p.mac", ".word ^? 6 / 2 ?\n.word ^/ 7 ? 1 /\n")]),
+    ("caret-invalid", [("p.mac", ".word ^/ ^? 6 /2 ? /\n")]),
+    # one statement, but a deep expression tree: whatever this gives alone it gives after any history (also after very long programs)
+    ("deep-sum", [("p.mac", ".word " + "1+" * 1999 + "1\n")]),
+    ("deep-minus", [("p.mac", ".word " + "-" * 1500 + "1\n")]),
     ("make", [("p.mac", "make_bin\nmake_raw \"o.raw\"\nmake_wav \"t.wav\", \"NAME\"\n .word 1\n")]),
     ("link-cancel", [("p.mac", "a: nop\n.link 1000+b-a\nb: nop\n .word a, b\n")]),
     ("lazy-sizes", [("p.mac", ".blkb n\n.even\nl1: .ascii \"x\" <c>\n.even\n.word l1\nn = 3\nc = 65.\n. = . + n\n.word .\n")]),
@@ -115,6 +122,10 @@ def gen_history(rnd, maxlen, root):
         if r < 0.25:
             name, files = rnd.choice(PROBES)
             hist.append(["probe:" + name, files])
+        elif r < 0.30:
+            # a long, perfectly ordinary program
+            n = rnd.choice([120, 302, 700])
+            hist.append(["long-valid", [["h.mac", "".join(f"w{i}: .word {i % 8}, w{max(0, i - 1)}\n" for i in range(n))]]])
         elif r < 0.45:
             hist.append(["fail", [["h.mac", rnd.choice(FAILERS)]]])
         elif r < 0.6:
